@@ -5,6 +5,7 @@ import (
 	"fmt"
 	"os"
 	"path/filepath"
+	"time"
 
 	bolt "go.etcd.io/bbolt"
 	berrors "go.etcd.io/bbolt/errors"
@@ -145,6 +146,28 @@ func (ss sizesim) Run(c *Case, dir string) *Outcome {
 				out.fault("ErrMaxSizeReached", 1)
 				if !errors.Is(e.LastErr, berrors.ErrMaxSizeReached) {
 					fail("wrong-error", "transaction failed with %v, expected the size-limit error", e.LastErr)
+					break
+				}
+				// the database must stay writable: the next writer can begin
+				done := make(chan error, 1)
+				db := e.DB
+				go func() {
+					tx, berr := db.Begin(true)
+					if berr == nil {
+						berr = tx.Rollback()
+					}
+					done <- berr
+				}()
+				select {
+				case berr := <-done:
+					if berr != nil {
+						fail("begin-after-size-limit", "Begin(true) after ErrMaxSizeReached: %v", berr)
+					}
+				case <-time.After(3 * time.Second):
+					fail("writer-blocked-after-size-limit", "after a transaction failed with ErrMaxSizeReached the next Begin(true) does not return (writer lock not released)")
+					e.DB = nil
+				}
+				if len(e.Viol) > 0 {
 					break
 				}
 			}
